@@ -224,7 +224,7 @@ def do_batch(task):
                 part.fail(sig, rep)
             else:
                 part.count('not-reproduced-after-shrink')
-        if pseed % 5 == 0:
+        if True:
             part.sample({'config': cfgname, 'language_mode': lmode, 'via': via, 'files_in_one_invocation': len(seq),
                          'first': [e['name'] for e in seq[:6]]}, cap=1)
     return part.result()
